@@ -1,26 +1,25 @@
 package main
 
-// C17: GoLite targets (docs/GOLITE_NOTES.md).
+// C17: GoLite targets (docs/GOLITE_NOTES.md). Theorems: coq/props/C17_Generated.v.
 func init() {
-	const pf = "github.com/notaryproject/notation-plugin-framework-go/plugin"
 	Register("C17", []Target{
+		// metadata validation (clauses 3, 4 of docs/audit/C17.md) and the file name a plugin must have (clause 5)
 		{Pkg: ".../internal/slices", Func: "Contains"},
 		{Pkg: ".../plugin", Func: "validate", NonNil: true},
 		{Pkg: ".../plugin", Func: "binName"},
-		{Pkg: ".../plugin", Func: "run"},
-		{Pkg: ".../plugin", Func: "(*CLIPlugin).GetMetadata"},
-		{Pkg: ".../plugin", Func: "(*CLIPlugin).DescribeKey"},
-		{Pkg: ".../plugin", Func: "NewCLIPlugin"},
-		{Pkg: ".../plugin", Func: "execCommander.Output"},
-		{Pkg: ".../plugin", Func: "PluginMalformedError.Error"},
-		{Pkg: ".../plugin", Func: "PluginExecutableFileError.Error"},
-		{Pkg: ".../plugin/proto", Func: "(*RequestError).UnmarshalJSON"},
-		{Pkg: ".../plugin/proto", Func: "RequestError.MarshalJSON"},
-		{Pkg: ".../plugin/proto", Func: "RequestError.Is"},
-		{Pkg: ".../plugin/proto", Func: "RequestError.Error"},
-		{Pkg: ".../plugin/proto", Func: "RequestError.Unwrap"},
-		{Pkg: ".../internal/io", Func: "(*LimitedWriter).Write"},
+		// the budget a new LimitedWriter starts with (clause 8)
 		{Pkg: ".../internal/io", Func: "LimitWriter"},
-		{Pkg: pf, Func: "(*GetMetadataResponse).HasCapability"},
+
+		// Refused by the translator; kept because the reason documents what is outside the subset:
+		// the cap arithmetic: `p = p[:l.N]` (slice of a slice, limitedwriter.go:48), then `l.N -= int64(n)`
+		// (store through the receiver, :51)
+		{Pkg: ".../internal/io", Func: "(*LimitedWriter).Write"},
+		// the error mapping after the process ended: plugin.Request (two-method interface), `resp interface{}`,
+		// json.Marshal / json.Unmarshal (any, out-parameter), the package variable `executor`
+		{Pkg: ".../plugin", Func: "run"},
+		// the name check `metadata.Name != p.name` sits behind run(ctx, .., &metadata) (out-parameter)
+		{Pkg: ".../plugin", Func: "(*CLIPlugin).GetMetadata"},
+		// the completeness rule of a structured error: json.Unmarshal(data, &tmp), `tmp.Metadata == nil`, `*e = ..`
+		{Pkg: ".../plugin/proto", Func: "(*RequestError).UnmarshalJSON"},
 	})
 }
